@@ -119,6 +119,20 @@ def describe_request(src, op):
         tree = ast.parse(src)
         lines = src.split('\n')
         path = tuple(tuple(x) for x in op['path'])
+        # the pre-state already holds a dangling line continuation (a backslash line followed by a blank line: what an earlier tail
+        # deletion of the same known class leaves behind when something still follows) and the request touches the statement list
+        # right behind it (deleting what follows makes it dangle at the end of the source, inserting there joins the new code to it)
+        dang = [ln for ln in range(len(lines) - 1) if lines[ln].rstrip().endswith('\\') and not lines[ln + 1].strip()]
+        if dang:
+            idx = None
+            if k in ('remove', 'cut') and path and path[-1][0] == 'body' and len(path) == 1:
+                idx = path[-1][1]
+            elif k in ('delitem', 'insert') and not path and op.get('field') == 'body':
+                idx = op['idx']
+            elif k in ('cut_slice', 'put_slice') and not path and op.get('field') == 'body':
+                idx = op['start']
+            if isinstance(idx, int) and 0 < idx <= len(tree.body) and tree.body[idx - 1].end_lineno - 1 in dang:
+                out['behind_dangling_continuation_left_by_tail_delete'] = True
         if k in ('remove', 'cut'):
             par, (fld, i) = O.get_path(tree, path[:-1]), path[-1]
             j = None if i is None else i + 1
